@@ -1086,6 +1086,32 @@ pub fn generate(seed: u64, run: u64, prop: &str) -> Generated {
         }
     }
     let mut query = QuerySpec { from, where_, keys, aggs, having, outer: if cte.is_some() { None } else { outer }, plain: None, cte, raw_sql: None, holders_override: None, inner_where: vec![] };
+    // HAVING on a SUM (own stream) instead of on count(*): the threshold has a fraction no sum of
+    // generated values hits, so rounding cannot decide the group
+    let mut rha = Rng::stream(seed, run, "having_agg");
+    if query.having.is_some() && rha.chance(0.6) {
+        // ... preferably a SUM / COUNT of a grouping column itself
+        let key_col = query.keys.iter().find(|k| k.group_expr.is_none() && numeric.iter().any(|(q, c)| *q == k.expr && !c.optional)).map(|k| k.expr.clone());
+        let sum_agg = query.aggs.iter().find(|a| a.f == AggFn::Sum && !a.distinct).map(|a| (a.arg.clone(), a.scale));
+        match (key_col, sum_agg) {
+            (Some(k), _) if rha.chance(0.7) => {
+                if rha.chance(0.5) {
+                    query.having = Some(format!("sum({}) > {:?}", k, rha.below(4) as f64 * 2.0 + 0.123456));
+                } else {
+                    query.having = Some(format!("count({}) > {:?}", k, rha.below(3) as f64 + 0.5));
+                }
+                tags.push("having_agg_of_key".into());
+            }
+            (_, Some((arg, scale))) => {
+                // (positive: a declared key value without rows reads sum 0 in the DP result and must
+                // not pass a HAVING the original query's missing group cannot pass either)
+                let t = rha.below(4) as f64 * scale.min(100.0) / 2.0 + 0.123456;
+                query.having = Some(format!("sum({}) > {:?}", arg, t));
+                tags.push("having_sum".into());
+            }
+            _ => {}
+        }
+    }
     // scalar functions around aggregated columns and value-set keys (own stream): every function
     // has its own typing rule, and the DP path turns propagated types into clamp bounds and
     // public key values
